@@ -240,3 +240,15 @@ fn table_index_rook(s: Square, blockers: Bitboard) -> usize {
 
     index + occupancies_index_offset as usize
 }
+
+/// Verification hook: the index a slider lookup uses, and the length of the shared table.
+#[cfg(jgilchrist_tcheran_verif)]
+pub fn verif_index(rook: bool, s: Square, blockers: Bitboard) -> (usize, usize) {
+    let idx = if rook {
+        table_index_rook(s, blockers)
+    } else {
+        table_index_bishop(s, blockers)
+    };
+
+    (idx, unsafe { ATTACKS_TABLE.len() })
+}
